@@ -38,6 +38,7 @@ import (
 	"k8s.io/apimachinery/pkg/api/resource"
 	metav1 "k8s.io/apimachinery/pkg/apis/meta/v1"
 	"k8s.io/apimachinery/pkg/runtime"
+	"k8s.io/component-base/featuregate"
 	"k8s.io/klog/v2"
 	kubeqos "k8s.io/kubectl/pkg/util/qos"
 	"sigs.k8s.io/controller-runtime/pkg/webhook/admission"
@@ -634,13 +635,31 @@ func c13CPUShape(pod *corev1.Pod) (shape string, subMilli, fractional bool) {
 	return
 }
 
+// c13SetGate sets one feature gate for the current case and returns the function that restores
+// the previous setting. Cases of one process run one after the other, so two settings never
+// coexist.
+func c13SetGate(c *kit.Case, f featuregate.Feature, on bool) func() {
+	prev := utilfeature.DefaultFeatureGate.Enabled(f)
+	if err := utilfeature.DefaultMutableFeatureGate.Set(fmt.Sprintf("%s=%t", f, on)); err != nil {
+		c.Harness("cannot set feature gate %s=%t: %v", f, on, err)
+	}
+	return func() { _ = utilfeature.DefaultMutableFeatureGate.Set(fmt.Sprintf("%s=%t", f, prev)) }
+}
+
 func TestVerifC13Validating(t *testing.T) {
-	// feature gates stay at their defaults; set explicitly so that nothing inherited from the
-	// package's other tests matters, and record them in the evidence
+	// The process starts from the default gates (set explicitly so that nothing inherited from the
+	// package's other tests matters; recorded in the evidence). Two gates that the validating path
+	// reads are then a per-case dimension of the workload, set before the request and restored after
+	// it: ColocationProfileSkipValidatingPriority (documented: "config whether to validate label
+	// priority", i.e. the koordinator.sh/priority sub-priority label) and ValidatePodDeviceResource
+	// (another validator of the same handler chain). The statement's rules are unconditional, so the
+	// oracle is the same under every setting.
 	gates := map[string]bool{}
-	for _, g := range []string{string(features.ColocationProfileSkipValidatingPriority), string(features.EnableQuotaAdmission), string(features.EnablePodEnhancedValidator)} {
+	for _, g := range []string{string(features.ColocationProfileSkipValidatingPriority), string(features.EnableQuotaAdmission), string(features.EnablePodEnhancedValidator),
+		string(features.ValidatePodDeviceResource)} {
 		_ = utilfeature.DefaultMutableFeatureGate.Set(g + "=false")
 	}
+	gates[string(features.ValidatePodDeviceResource)] = utilfeature.DefaultFeatureGate.Enabled(features.ValidatePodDeviceResource)
 	gates[string(features.ColocationProfileSkipValidatingPriority)] = utilfeature.DefaultFeatureGate.Enabled(features.ColocationProfileSkipValidatingPriority)
 	gates[string(features.EnableQuotaAdmission)] = utilfeature.DefaultFeatureGate.Enabled(features.EnableQuotaAdmission)
 	gates[string(features.EnablePodEnhancedValidator)] = utilfeature.DefaultFeatureGate.Enabled(features.EnablePodEnhancedValidator)
@@ -649,18 +668,18 @@ func TestVerifC13Validating(t *testing.T) {
 	ctx := context.Background()
 
 	kit.Run(t, kit.Config{Property: "C13", Unit: "validating", Quick: 6000, Thorough: 600000,
-		Rule: "one pod per case: QoS label in {absent, LSE, LSR, LS, BE, SYSTEM, junk}, spec.priority nil / at every class edge -1,0,+1 / class and gap centres / extremes, priority-class label (known or junk) overriding the number in 25%, 0-3 containers and 0-2 init containers (sidecars) with cpu/memory/batch/mid quantities from a boundary pool (1m, 0.0005, 500u, 1.5, 1e3, 1Gi, 1G, ...), overhead; API-server defaulting applied; 45% of the cases are updates whose old object differs in a QoS / priority-class / sub-priority / unrelated label or (tagged out-of-domain) in spec.priority; 65% of LSR/LSE pods are steered to a whole CPU sum built from fractions. distinct = (operation, update kind, QoS, priority class, pod-CPU shape, batch requested, verdict); non-trivial = priority at a class edge +-1, LSR/LSE pod with fractional or sub-milli container CPU, batch resource with non-BE QoS, or an update touching a QoS / priority-class label",
+		Rule: "one pod per case: QoS label in {absent, LSE, LSR, LS, BE, SYSTEM, junk}, spec.priority nil / at every class edge -1,0,+1 / class and gap centres / extremes, priority-class label (known or junk) overriding the number in 25%, 0-3 containers and 0-2 init containers (sidecars) with cpu/memory/batch/mid quantities from a boundary pool (1m, 0.0005, 500u, 1.5, 1e3, 1Gi, 1G, ...), overhead; API-server defaulting applied; 45% of the cases are updates whose old object differs in a QoS / priority-class / sub-priority / unrelated label or (tagged out-of-domain) in spec.priority; the feature gates ColocationProfileSkipValidatingPriority (40% of the updates, 15% of the creates) and ValidatePodDeviceResource (10%) are switched on per case and restored; 65% of LSR/LSE pods are steered to a whole CPU sum built from fractions. distinct = (operation, update kind, QoS, priority class, pod-CPU shape, batch requested, verdict, gate setting); non-trivial = priority at a class edge +-1, LSR/LSE pod with fractional or sub-milli container CPU, batch resource with non-BE QoS, or an update touching a QoS / priority-class label",
 	}, func(c *kit.Case) {
 		r := c.R
 		if !c13GatesRecorded {
 			c13GatesRecorded = true
-			c.Sample(map[string]any{"feature_gates": gates})
+			c.Sample(map[string]any{"feature_gates_at_start": gates, "feature_gates_varied_per_case": []string{string(features.ColocationProfileSkipValidatingPriority), string(features.ValidatePodDeviceResource)}})
 			for g, on := range gates {
 				n := 0
 				if on {
 					n = 1
 				}
-				c.Count("v_gate_on_"+g, n)
+				c.Count("v_gate_on_at_start_"+g, n)
 			}
 		}
 		newPod, info := c13GenPod(r)
@@ -681,6 +700,23 @@ func TestVerifC13Validating(t *testing.T) {
 		if oldPod != nil {
 			oldRaw = c13JSON(oldPod)
 		}
+		// gate setting of this case (drawn after the objects, so the objects do not depend on it)
+		skipPrioGate := r.Pct(15)
+		if op == admissionv1.Update {
+			skipPrioGate = r.Pct(40)
+		}
+		deviceGate := r.Pct(10)
+		defer c13SetGate(c, features.ColocationProfileSkipValidatingPriority, skipPrioGate)()
+		defer c13SetGate(c, features.ValidatePodDeviceResource, deviceGate)()
+		gateTag := "skipprio-off"
+		if skipPrioGate {
+			gateTag = "skipprio-on"
+			c.Count("v_cases_gate_ColocationProfileSkipValidatingPriority_on", 1)
+		}
+		if deviceGate {
+			c.Count("v_cases_gate_ValidatePodDeviceResource_on", 1)
+		}
+		c.Op("gates: ColocationProfileSkipValidatingPriority=%t ValidatePodDeviceResource=%t", skipPrioGate, deviceGate)
 		c.Op("op=%s kind=%s new=%s old=%s", op, kind, newRaw, oldRaw)
 
 		// what the webhook sees: the objects decoded from the request by the handler's decoder
@@ -739,6 +775,14 @@ func TestVerifC13Validating(t *testing.T) {
 			}
 		} else {
 			c.Count("v_update_"+kind+"_"+verdict, 1)
+			c.Count("v_update_"+gateTag+"_"+verdict, 1)
+			// updates that change the QoS or the priority class (reading a), per gate setting
+			if c13QoS(oldPod) != qos {
+				c.Count("v_update_qos_changed_"+gateTag+"_"+verdict, 1)
+			}
+			if oa, _ := c13Classes(oldPod); oa != pcA {
+				c.Count("v_update_class_changed_"+gateTag+"_"+verdict, 1)
+			}
 		}
 		if subMilli {
 			c.Count("v_pods_with_submilli_cpu", 1)
@@ -760,9 +804,10 @@ func TestVerifC13Validating(t *testing.T) {
 			c.Count("v_chain_and_direct_differ", 1)
 		}
 		if oldPod != nil && oldPod.Labels[c13SubKey] != newPod.Labels[c13SubKey] {
-			c.Count("v_subpriority_changed_"+verdict, 1)
+			// in the scope of the gate when it is on: counted, never asserted
+			c.Count("v_subpriority_changed_"+gateTag+"_"+verdict, 1)
 		}
-		c.Seen(op, kind, qos, pcA, shape, batch, verdict)
+		c.Seen(op, kind, qos, pcA, shape, batch, verdict, skipPrioGate)
 		if info.prioKind == "edge" || ((qos == "LSR" || qos == "LSE") && (fractional || subMilli)) || (batch && qos != "BE") ||
 			kind == "qos-label" || kind == "pc-label" || kind == "pc-label-equivalent" {
 			c.NonTrivial()
@@ -780,8 +825,8 @@ func TestVerifC13Validating(t *testing.T) {
 				if !admittedDirect {
 					via = "PodValidatingHandler.Handle (although clusterColocationProfileValidatingPod denied)"
 				}
-				c.Fail("C13/protocol/"+brokenA[0], "%s admitted a %s that breaks the protocol: %v\nQoS=%s priority class=%s (spec.priority=%s, label=%q) pod CPU request=%s batch requested=%v\nnew=%s\nold=%s",
-					via, strings.ToLower(string(op)), brokenA, qos, pcA, c13PrioStr(newPod.Spec.Priority), newPod.Labels[c13PCKey],
+				c.Fail("C13/protocol/"+brokenA[0], "%s admitted a %s that breaks the protocol: %v (gates: ColocationProfileSkipValidatingPriority=%t ValidatePodDeviceResource=%t)\nQoS=%s priority class=%s (spec.priority=%s, label=%q) pod CPU request=%s batch requested=%v\nnew=%s\nold=%s",
+					via, strings.ToLower(string(op)), brokenA, skipPrioGate, deviceGate, qos, pcA, c13PrioStr(newPod.Spec.Priority), newPod.Labels[c13PCKey],
 					c13PodRequest(newPod, corev1.ResourceCPU).FloatString(6), batch, newRaw, oldRaw)
 			}
 			c.Count("v_admitted_and_predicate_holds", 1)
